@@ -1,28 +1,39 @@
 -- EXECUTABLE REFERENCE VERIFIER: `winter_verifier::verify` (verifier/src/lib.rs `verify`, `perform_verification`)
--- on the BYTES of a serialized proof, for the concrete instantiation
---     base field = 64-bit field (raw words of Model.F64.impl), extension none / quadratic / cubic,
---     hasher     = Rp64_256 (Model.Rescue.rp64: permutation, hash_elements, merge, merge_with_int),
---     coin       = DefaultRandomCoin<Rp64_256> (Model.Coin over that hasher),
---     AIR        = the data-driven family of harness/src/genair.rs WITHOUT auxiliary segment (main segment,
---                  periodic columns, single / periodic / sequence assertions, transition exemptions).
+-- on the BYTES of a serialized proof, for an instantiation record `Inst` (a PARAMETER of `refVerify`):
+--     base field = raw words of a `FieldImpl` with its quadratic / cubic extension formulas,
+--     hasher     = a Rescue Prime instance of Model.Rescue (permutation, hash_elements, merge, merge_with_int) with
+--                  its digest encoding,
+--     coin       = DefaultRandomCoin over that hasher (Model.Coin),
+-- with the three instances
+--     `Inst.rp64`    64-bit field, Rp64_256          `Inst.rpjive`  64-bit field, RpJive64_256
+--     `Inst.rp62`    62-bit field, Rp62_248
+-- (extension none / quadratic / cubic each), and for
+--     AIR        = the data-driven family of harness/src/genair.rs: main segment, periodic columns, single /
+--                  periodic / sequence assertions, transition exemptions, and an optional AUXILIARY SEGMENT
+--                  (aux random elements drawn after the main commitment, aux commitment reseed, aux queries, aux
+--                  columns in the OOD frame, aux transition constraints and aux boundary assertions whose values are
+--                  expressions in the random elements and the public inputs, aux columns in the DEEP composer).
+--                  Not modelled: a Lagrange kernel column / GKR proof (`x=w.r.1`; the driver answers `-`).
 -- Every step is an existing model, composed here:
 --     Proof::from_bytes                         Model.Parse.parseProof            (C06/C12)
 --     base-field / policy / query-count checks, AIR constructor, VerifierChannel::new
 --                                               Model.Parse.verifyFront (outcome), Model.VerifierChecks.channelParse (values)
---     the sequence of checks of perform_verification (coin seeding, reseeds, draws, OOD consistency, PoW,
---     query positions incl. sort+dedup, Merkle checks of the openings, FRI layer loop, remainder checks)
---                                               Model.VerifierChecks.verify       (C02/C03 decision function)
+--     the sequence of checks of perform_verification (coin seeding, reseeds, the auxiliary-segment phase, draws, OOD
+--     consistency, PoW, query positions incl. sort+dedup, Merkle checks of the openings, FRI layer loop, remainder
+--     checks)                                   Model.VerifierChecks.verify       (C02/C03 decision function)
 --     DefaultRandomCoin                         Model.Coin                        (C19)
---     Rp64_256                                  Model.Rescue                      (C11)
+--     Rp64_256 / RpJive64_256 / Rp62_248        Model.Rescue                      (C11)
 --     MerkleTree::verify_batch                  Model.Merkle.verifyBatch          (C10)
---     evaluate_constraints                      Model.Composition.evaluateConstraints (C16/C17)
+--     evaluate_constraints (main and auxiliary transition constraints and boundary groups)
+--                                               Model.Composition.evaluateConstraints (C16/C17)
 --     fold_positions, map_positions_to_indexes, get_query_values, row interpolation, eval_horner
 --                                               Model.Fri                         (C15/C05)
 -- Written here because no model had it: the DEEP composer (verifier/src/composer.rs), the element
 -- representation shared by all parts (coordinate lists of raw words), the instantiation records and the glue.
 -- `refVerify` IS `VerifierChecks.verify` at a concrete `Verifier` record (`mkVerifier`) behind the byte-level
 -- front end, so the decision theorems of C02/C03/C05 about `VerifierChecks.verify` apply to what is executed.
--- No Mathlib.  Tied to the real `verify` on identical proof bytes by the `refv` op of harness/src/bin/c03.rs.
+-- No Mathlib.  Tied to the real `verify` on identical proof bytes by the `refv` op of harness/src/bin/c03.rs
+-- (and, on C06's hostile mutants, of harness/src/bin/c06.rs).
 import Winter.Model.Parse
 import Winter.Model.VerifierChecks
 import Winter.Model.Coin
@@ -33,22 +44,18 @@ import Winter.Model.Ext
 namespace Model.RefVerifier
 open Model
 
-/-! ## 1. Field elements of the protocol: coordinate lists of raw words of the 64-bit field -/
+/-! ## 1. Field elements of the protocol: coordinate lists of raw words of the base field -/
 
 /-- an element of the base field (`[c0]`) or of its quadratic / cubic extension (`[c0, c1]`, `[c0, c1, c2]`);
-    the coordinates are raw words (`BaseElement.0`, Montgomery form, `< M` by the invariant of C07) -/
+    the coordinates are raw words (`BaseElement.0`; `< M` by the invariant of C07) -/
 abbrev El := List Nat
 
-/-- a digest of Rp64_256: four raw words -/
+/-- a digest of a Rescue hasher: four raw words -/
 abbrev Dg := List Nat
 
-def I : FieldImpl := F64.impl
-def BO : BOps Nat := BOps.ofImpl I
-def X2 : Ext2 Nat := Ext2.f64 BO.toFOps
-def X3 : Ext3 Nat := Ext3.f64 BO.toFOps
-
-/-- the operations of `E` (`FieldElement`) the verifier uses -/
+/-- the operations of `E` (`FieldElement`) the verifier uses, over the base field `I` -/
 structure EOps where
+  I : FieldImpl
   deg : Nat
   zero : El
   one : El
@@ -60,75 +67,75 @@ structure EOps where
   /-- `E::from(b)` for a raw word of the base field -/
   ofBase : Nat → El
 
-/-- base-field inversion; the model's `inv` of the 64-bit field always returns -/
-def binv (x : Nat) : Nat :=
+/-- base-field inversion; a fuel-bounded inversion loop that does not return is mapped to zero (it returns for every
+    word satisfying the invariant: C07) -/
+def binv (I : FieldImpl) (x : Nat) : Nat :=
   match I.inv x with
   | .done r => r
   | .out => I.new 0
 
-def addEl (a b : El) : El := List.zipWith I.add a b
-def subEl (a b : El) : El := List.zipWith I.sub a b
+def addEl (I : FieldImpl) (a b : El) : El := List.zipWith I.add a b
+def subEl (I : FieldImpl) (a b : El) : El := List.zipWith I.sub a b
 
-def baseOps : EOps where
+def baseOps (I : FieldImpl) : EOps where
+  I := I
   deg := 1
   zero := [I.new 0]
   one := [I.new 1]
-  add := addEl
-  sub := subEl
+  add := addEl I
+  sub := subEl I
   mul := List.zipWith I.mul
-  inv := List.map binv
+  inv := List.map (binv I)
   ofBase := fun x => [x]
 
-def quadMul : El → El → El
+def quadMul (X2 : Ext2 Nat) : El → El → El
   | [a0, a1], [b0, b1] => let p := X2.mul a0 a1 b0 b1; [p.1, p.2]
   | _, _ => []
 
 /-- `QuadExtension::inv`; its debug assertion (`norm[1] == 0`) and a base inversion that does not return are
-    mapped to zero: neither happens over the 64-bit field (C08) -/
-def quadInv : El → El
+    mapped to zero: neither happens over the fields of the instances (C08) -/
+def quadInv (I : FieldImpl) (X2 : Ext2 Nat) : El → El
   | [a0, a1] =>
-    match Quad.inv BO X2 ⟨a0, a1⟩ with
+    match Quad.inv (BOps.ofImpl I) X2 ⟨a0, a1⟩ with
     | .ok r => [r.c0, r.c1]
     | _ => [I.new 0, I.new 0]
   | _ => []
 
-def quadOps : EOps where
+def quadOps (I : FieldImpl) (X2 : Ext2 Nat) : EOps where
+  I := I
   deg := 2
   zero := [I.new 0, I.new 0]
   one := [I.new 1, I.new 0]
-  add := addEl
-  sub := subEl
-  mul := quadMul
-  inv := quadInv
+  add := addEl I
+  sub := subEl I
+  mul := quadMul X2
+  inv := quadInv I X2
   ofBase := fun x => [x, I.new 0]
 
-def cubeMul : El → El → El
+def cubeMul (X3 : Ext3 Nat) : El → El → El
   | [a0, a1, a2], [b0, b1, b2] => let p := X3.mul a0 a1 a2 b0 b1 b2; [p.1, p.2.1, p.2.2]
   | _, _ => []
 
-def cubeInv : El → El
+def cubeInv (I : FieldImpl) (X3 : Ext3 Nat) : El → El
   | [a0, a1, a2] =>
-    match Cube.inv BO X3 ⟨a0, a1, a2⟩ with
+    match Cube.inv (BOps.ofImpl I) X3 ⟨a0, a1, a2⟩ with
     | .ok r => [r.c0, r.c1, r.c2]
     | _ => [I.new 0, I.new 0, I.new 0]
   | _ => []
 
-def cubeOps : EOps where
+def cubeOps (I : FieldImpl) (X3 : Ext3 Nat) : EOps where
+  I := I
   deg := 3
   zero := [I.new 0, I.new 0, I.new 0]
   one := [I.new 1, I.new 0, I.new 0]
-  add := addEl
-  sub := subEl
-  mul := cubeMul
-  inv := cubeInv
+  add := addEl I
+  sub := subEl I
+  mul := cubeMul X3
+  inv := cubeInv I X3
   ofBase := fun x => [x, I.new 0, I.new 0]
 
-/-- the element type selected by `FieldExtension` (discriminant 1, 2, 3) -/
-def extOps (ext : Nat) : Option EOps :=
-  if ext = 1 then some baseOps else if ext = 2 then some quadOps else if ext = 3 then some cubeOps else none
-
 /-- `get_root_of_unity(k)`; `none` = its assertions -/
-def rootRaw (k : Nat) : Option Nat := I.rootOfUnity k
+def rootRaw (I : FieldImpl) (k : Nat) : Option Nat := I.rootOfUnity k
 
 /-- the operation record of the FRI model over `E` -/
 def EOps.fri (E : EOps) : Fri.FOps El where
@@ -139,12 +146,12 @@ def EOps.fri (E : EOps) : Fri.FOps El where
   mul := E.mul
   inv := E.inv
   beq := fun a b => a == b
-  ofNat := fun n => E.ofBase (I.new n)
-  root := fun k => match rootRaw k with
+  ofNat := fun n => E.ofBase (E.I.new n)
+  root := fun k => match rootRaw E.I k with
     | some r => E.ofBase r
     | none => E.zero
-  rootOk := fun k => k != 0 && decide (k ≤ I.twoAdicity)
-  offset := E.ofBase (I.new I.generator)
+  rootOk := fun k => k != 0 && decide (k ≤ E.I.twoAdicity)
+  offset := E.ofBase (E.I.new E.I.generator)
 
 def EOps.pow (E : EOps) (x : El) (n : Nat) : El := Fri.pow E.fri x n
 
@@ -157,50 +164,126 @@ def EOps.div (E : EOps) : Divisor.Ops El where
   mul := E.mul
   pow := E.pow
   div := fun a b => some (E.mul a (E.inv b))
-  ofNat := fun v => E.ofBase (I.new (v % I.M))
-  root := fun k => (rootRaw k).map E.ofBase
+  ofNat := fun v => E.ofBase (E.I.new (v % E.I.M))
+  root := fun k => (rootRaw E.I k).map E.ofBase
 
-/-! ## 2. Rp64_256 and the coin over it -/
+/-! ## 2. The instantiation: base field, extensions, hasher, digest encoding -/
 
-def P : Rescue.Params := Rescue.rp64
+/-- what `verify::<AIR, H, DefaultRandomCoin<H>>` is instantiated with -/
+structure Inst where
+  name : String
+  /-- `AIR::BaseField` -/
+  I : FieldImpl
+  /-- the formulas of `ExtensibleField<2>` / `ExtensibleField<3>` of the base field -/
+  X2 : Ext2 Nat
+  X3 : Ext3 Nat
+  /-- `CubeExtension::<B>::is_supported()` -/
+  cubic : Bool
+  /-- the Rescue Prime instance -/
+  P : Rescue.Params
+  /-- `Digest::as_bytes` (32 bytes) -/
+  asBytes : Dg → List Nat
+  /-- the serialized digest (canonical coordinates) -/
+  digest : Serde.Codec (List Nat)
+  /-- serialized length of a digest and its `size_of` -/
+  digestBytes : Nat
+  digestSize : Nat
+  /-- `H::COLLISION_RESISTANCE` -/
+  collisionResistance : Nat
 
-/-- `Rp64_256` as the public coin uses it (seed elements are canonical integers) -/
-def hashOps : Coin.HashOps Dg where
-  hashElements := fun es => Rescue.hashElements P (es.map I.new)
-  merge := Rescue.merge P
-  mergeWithInt := Rescue.mergeWithInt P
+/-- 64-bit field, `Rp64_256` -/
+def Inst.rp64 : Inst where
+  name := "f64/rp64_256"
+  I := F64.impl
+  X2 := Ext2.f64 (BOps.ofImpl F64.impl).toFOps
+  X3 := Ext3.f64 (BOps.ofImpl F64.impl).toFOps
+  cubic := true
+  P := Rescue.rp64
   asBytes := Rescue.digestBytes64
+  digest := Serde.elemDigest64
+  digestBytes := 32
+  digestSize := 32
+  collisionResistance := 128
 
-/-- `Rp64_256` as the Merkle code uses it -/
-def merkleH : Merkle.Hasher Dg := ⟨Rescue.merge P, List.replicate 4 (I.new 0)⟩
+/-- 64-bit field, `RpJive64_256` -/
+def Inst.rpjive : Inst := { Inst.rp64 with name := "f64/rpjive64_256", P := Rescue.rpjive }
+
+/-- 62-bit field, `Rp62_248` -/
+def Inst.rp62 : Inst where
+  name := "f62/rp62_248"
+  I := F62.impl
+  X2 := Ext2.f62 (BOps.ofImpl F62.impl).toFOps
+  X3 := Ext3.f62 (BOps.ofImpl F62.impl).toFOps
+  cubic := true
+  P := Rescue.rp62
+  asBytes := Rescue.digestBytes62
+  digest := Serde.elemDigest62
+  digestBytes := 31
+  digestSize := 32
+  collisionResistance := 124
+
+/-- the element type selected by `FieldExtension` (discriminant 1, 2, 3) -/
+def extOps (J : Inst) (ext : Nat) : Option EOps :=
+  if ext = 1 then some (baseOps J.I) else if ext = 2 then some (quadOps J.I J.X2)
+  else if ext = 3 then some (cubeOps J.I J.X3) else none
+
+/-- the hasher as the public coin uses it (seed elements are canonical integers) -/
+def hashOps (J : Inst) : Coin.HashOps Dg where
+  hashElements := fun es => Rescue.hashElements J.P (es.map J.I.new)
+  merge := Rescue.merge J.P
+  mergeWithInt := Rescue.mergeWithInt J.P
+  asBytes := J.asBytes
+
+/-- the hasher as the Merkle code uses it -/
+def merkleH (J : Inst) : Merkle.Hasher Dg := ⟨Rescue.merge J.P, List.replicate 4 (J.I.new 0)⟩
 
 /-- `H::hash_elements(&[E])`: the coordinates of all elements, in order -/
-def hashEls (vs : List El) : Dg := Rescue.hashElementsExt P vs
+def hashEls (J : Inst) (vs : List El) : Dg := Rescue.hashElementsExt J.P vs
 
-def fieldDesc : Coin.FieldDesc := ⟨I.M, I.bytes⟩
+def fieldDesc (J : Inst) : Coin.FieldDesc := ⟨J.I.M, J.I.bytes⟩
 
-/-- `DefaultRandomCoin<Rp64_256>` drawing elements of `E` -/
-def coinOps (E : EOps) : VerifierChecks.CoinOps (Coin.Coin Dg) Dg El where
-  new := Coin.new hashOps
-  reseed := Coin.reseed hashOps
+/-- `DefaultRandomCoin<H>` drawing elements of `E` -/
+def coinOps (J : Inst) (E : EOps) : VerifierChecks.CoinOps (Coin.Coin Dg) Dg El where
+  new := Coin.new (hashOps J)
+  reseed := Coin.reseed (hashOps J)
   draw := fun c =>
-    match Coin.draw hashOps fieldDesc E.deg c with
-    | (.elem cs, c') => some (cs.map I.new, c')
+    match Coin.draw (hashOps J) (fieldDesc J) E.deg c with
+    | (.elem cs, c') => some (cs.map J.I.new, c')
     | _ => none
   drawInts := fun c n dom nonce =>
-    match Coin.drawIntegers hashOps n dom nonce c with
+    match Coin.drawIntegers (hashOps J) n dom nonce c with
     | (.ints vs, _) => some vs
     | _ => none
-  leadingZeros := Coin.checkLeadingZeros hashOps
+  leadingZeros := Coin.checkLeadingZeros (hashOps J)
 
 /-! ## 3. The computation: description and the AIR instance the verifier builds from it -/
 
-/-- a description of the harness's AIR family without auxiliary segment: what `check_main` reads
-    (`VerifierChecks.Air`) plus the declared constraint degrees -/
+/-- the auxiliary segment of a description (`x= u= b=` of the text form, without Lagrange kernel column) -/
+structure AuxDesc where
+  /-- declared width and number of random elements (the verifier takes both from the PROOF's trace info) -/
+  width : Nat
+  numRands : Nat
+  /-- transition constraints over main frame, auxiliary frame, periodic values and random elements -/
+  cons : List Composition.Expr
+  degs : List Protocol.Degree
+  /-- assertions against auxiliary columns; the asserted value is an expression in the random elements and the
+      public inputs (`w<i>`: public input `i + j` for the `j`-th value of a sequence) -/
+  asserts : List (VerifierChecks.AssertDesc × Composition.Expr)
+  deriving Repr
+
+/-- a description of the harness's AIR family: what `check_main` reads (`VerifierChecks.Air`), the declared
+    constraint degrees, and the auxiliary segment if there is one -/
 structure Desc where
   air : VerifierChecks.Air
   degs : List Protocol.Degree
+  aux : Option AuxDesc := none
   deriving Repr
+
+def Desc.auxCons (d : Desc) : List Composition.Expr := match d.aux with | some x => x.cons | none => []
+def Desc.auxDegs (d : Desc) : List Protocol.Degree := match d.aux with | some x => x.degs | none => []
+def Desc.auxAsserts (d : Desc) : List (VerifierChecks.AssertDesc × Composition.Expr) :=
+  match d.aux with | some x => x.asserts | none => []
+def Desc.auxWidth (d : Desc) : Nat := match d.aux with | some x => x.width | none => 0
 
 /-- `base[.cycle]*` of a constraint `deg:expr` -/
 def parseDegree (s : String) : Option Protocol.Degree :=
@@ -211,21 +294,111 @@ def parseDegree (s : String) : Option Protocol.Degree :=
     | _ => none
   | _ => none
 
-/-- the text form of harness/src/genair.rs; descriptions with an auxiliary segment (`x=`) are not modelled -/
+/-- prefix expression parser for the full atom set of genair's `parse_expr` (`k c n p a b r v w + - * ^ ~`; the
+    division of generation rules is not a constraint expression); fuel = remaining nesting depth -/
+def parseExprX : Nat → List Char → Option (Composition.Expr × List Char)
+  | 0, _ => none
+  | _ + 1, [] => none
+  | fuel + 1, c :: rest =>
+    let idx (mk : Nat → Composition.Expr) : Option (Composition.Expr × List Char) :=
+      match VerifierChecks.parseNum rest with
+      | some (v, r) => if v > 100000 then none else some (mk v, r)
+      | none => none
+    let bin (mk : Composition.Expr → Composition.Expr → Composition.Expr) : Option (Composition.Expr × List Char) :=
+      match parseExprX fuel rest with
+      | some (x, r1) =>
+        match parseExprX fuel r1 with
+        | some (y, r2) => some (mk x y, r2)
+        | none => none
+      | none => none
+    if c = 'k' then
+      match VerifierChecks.parseNum rest with
+      | some (v, r) => if v < VerifierChecks.u128Lim then some (.const v, r) else none
+      | none => none
+    else if c = 'c' then idx .cur
+    else if c = 'n' then idx .nxt
+    else if c = 'p' then idx .per
+    else if c = 'a' then idx .acur
+    else if c = 'b' then idx .anxt
+    else if c = 'r' then idx .rand
+    else if c = 'v' then idx .pub
+    else if c = 'w' then idx .pubSeq
+    else if c = '+' then bin .add
+    else if c = '-' then bin .sub
+    else if c = '*' then bin .mul
+    else if c = '^' then
+      match VerifierChecks.parseNum rest with
+      | some (k, r) =>
+        if k > 64 then none
+        else
+          match parseExprX fuel r with
+          | some (x, r2) => some (.pow x k, r2)
+          | none => none
+      | none => none
+    else if c = '~' then
+      match parseExprX fuel rest with
+      | some (x, r) => some (.neg x, r)
+      | none => none
+    else none
+
+def parseExprXAll (s : String) : Option Composition.Expr :=
+  match parseExprX 201 s.toList with
+  | some (e, []) => some e
+  | _ => none
+
+/-- `<degree>:<expr>` of an auxiliary constraint -/
+def parseAuxConstraint (s : String) : Option (Protocol.Degree × Composition.Expr) :=
+  match s.splitOn ":" with
+  | [_, e] =>
+    match parseDegree s, parseExprXAll e with
+    | some g, some x => some (g, x)
+    | _, _ => none
+  | _ => none
+
+/-- `<assertion>=<expr>` of an auxiliary assertion -/
+def parseAuxAssertion (s : String) : Option (VerifierChecks.AssertDesc × Composition.Expr) :=
+  match s.splitOn "=" with
+  | [a, e] =>
+    match VerifierChecks.parseAssertion a, parseExprXAll e with
+    | some a, some x => some (a, x)
+    | _, _ => none
+  | _ => none
+
+/-- the `x= u= b=` fields of a description line: `none` = malformed or with a Lagrange kernel column (not
+    modelled), `some none` = no auxiliary segment -/
+def parseAux (fields : List String) : Option (Option AuxDesc) :=
+  let val (f : String) : String := "=".intercalate ((f.splitOn "=").drop 1)
+  let xs := fields.filter (·.startsWith "x=")
+  let us := fields.filter (·.startsWith "u=")
+  let bs := fields.filter (·.startsWith "b=")
+  match xs with
+  | [] => if us.isEmpty && bs.isEmpty then some none else none
+  | [x] =>
+    match ((val x).splitOn ".").mapM VerifierChecks.parseNat with
+    | some [w, r, l] =>
+      if l ≠ 0 ∨ w = 0 then none
+      else
+        let cons := (us.map fun u => (VerifierChecks.nonEmpty ((val u).splitOn ",")).mapM parseAuxConstraint)
+        let asserts := (bs.map fun b => (VerifierChecks.nonEmpty ((val b).splitOn ",")).mapM parseAuxAssertion)
+        match cons, asserts with
+        | [some cs], [some as] => some (some ⟨w, r, cs.map (·.2), cs.map (·.1), as⟩)
+        | _, _ => none
+    | _ => none
+  | _ => none
+
+/-- the text form of harness/src/genair.rs; descriptions with a Lagrange kernel column are not modelled -/
 def parseDesc (line : String) : Option Desc :=
   let fields := VerifierChecks.nonEmpty (line.splitOn ";")
-  if fields.any (fun f => f.startsWith "x=" || f.startsWith "h=" || f.startsWith "u=" || f.startsWith "b=") then none
-  else
-    match VerifierChecks.parseAir line with
-    | none => none
-    | some A =>
-      let degs := fields.filterMap fun f =>
-        if f.startsWith "t=" then some ((VerifierChecks.nonEmpty ((f.drop 2).toString.splitOn ",")).mapM parseDegree) else none
-      match degs with
-      | [some ds] => if ds.length = A.constraints.length then some ⟨A, ds⟩ else none
-      | _ => none
+  match VerifierChecks.parseAir line, parseAux fields with
+  | some A, some aux =>
+    let degs := fields.filterMap fun f =>
+      if f.startsWith "t=" then some ((VerifierChecks.nonEmpty ((f.drop 2).toString.splitOn ",")).mapM parseDegree) else none
+    match degs with
+    | [some ds] => if ds.length = A.constraints.length then some ⟨A, ds, aux⟩ else none
+    | _ => none
+  | _, _ => none
 
-/-- constraint expressions of the description as the composition model reads them -/
+/-- constraint expressions of the main segment as the composition model reads them -/
 def convExpr : VerifierChecks.Expr → Composition.Expr
   | .const v => .const v
   | .cur i => .cur i
@@ -237,7 +410,7 @@ def convExpr : VerifierChecks.Expr → Composition.Expr
   | .pow k x => .pow (convExpr x) k
   | .neg x => .neg (convExpr x)
 
-/-- every cell an expression reads exists in a frame of `width` columns and `nper` periodic values
+/-- every cell a main constraint reads exists in a frame of `width` columns and `nper` periodic values
     (`env.cur[i]` etc. of genair's `Expr::eval` panic otherwise) -/
 def exprInRange (width nper : Nat) : VerifierChecks.Expr → Bool
   | .const _ => true
@@ -250,64 +423,106 @@ def exprInRange (width nper : Nat) : VerifierChecks.Expr → Bool
   | .pow _ x => exprInRange width nper x
   | .neg x => exprInRange width nper x
 
+/-- every slice index of `Expr::eval` on an environment with `width` main cells, `nper` periodic values, `aw`
+    auxiliary cells and `nr` random elements is in range (public inputs are read with `get(i).unwrap_or(ZERO)`:
+    never a panic) -/
+def exprInRangeX (width nper aw nr : Nat) : Composition.Expr → Bool
+  | .const _ => true
+  | .cur i => decide (i < width)
+  | .nxt i => decide (i < width)
+  | .per i => decide (i < nper)
+  | .acur i => decide (i < aw)
+  | .anxt i => decide (i < aw)
+  | .rand i => decide (i < nr)
+  | .pub _ => true
+  | .pubSeq _ => true
+  | .add x y => exprInRangeX width nper aw nr x && exprInRangeX width nper aw nr y
+  | .sub x y => exprInRangeX width nper aw nr x && exprInRangeX width nper aw nr y
+  | .mul x y => exprInRangeX width nper aw nr x && exprInRangeX width nper aw nr y
+  | .pow x _ => exprInRangeX width nper aw nr x
+  | .neg x => exprInRangeX width nper aw nr x
+
 /-- `B::from_word(v % MOD)` embedded into `E` -/
-def embedInt (E : EOps) (v : Nat) : El := E.ofBase (I.new (v % I.M))
+def embedInt (E : EOps) (v : Nat) : El := E.ofBase (E.I.new (v % E.I.M))
+
+/-- the asserting constructors `Assertion::single / periodic / sequence` on the values of one assertion;
+    `none` = a panic -/
+def toLibAssertion (a : VerifierChecks.AssertDesc) (vals : List El) : Option (Divisor.Assertion El) :=
+  match a.kind, vals with
+  | .single, v :: _ => some (Divisor.single a.column a.first v)
+  | .periodic, v :: _ =>
+    (match Divisor.periodic a.column a.first a.stride v with
+     | .ok x => some x
+     | .panic _ => none)
+  | .sequence, vs =>
+    (match Divisor.sequence a.column a.first a.stride vs with
+     | .ok x => some x
+     | .panic _ => none)
+  | _, [] => none
 
 /-- `GenericAir::get_assertions`: the public values in assertion order (a missing value reads as zero, the
     number of values of a sequence comes from the DESCRIPTION's trace length), through the asserting
-    constructors `Assertion::single / periodic / sequence`; `none` = one of them panics -/
+    constructors; `none` = one of them panics -/
 def mkAssertions (E : EOps) (d : Desc) (pubs : List Nat) : Option (List (Divisor.Assertion El)) :=
   (List.range d.air.assertions.length).mapM fun k =>
     match d.air.assertions[k]? with
     | none => none
     | some a =>
-      let vals := (List.range (a.numValues d.air.n)).map fun i =>
+      toLibAssertion a ((List.range (a.numValues d.air.n)).map fun i =>
         match pubs[d.air.pubOffset k + i]? with
         | some v => embedInt E v
-        | none => E.zero
-      match a.kind, vals with
-      | .single, v :: _ => some (Divisor.single a.column a.first v)
-      | .periodic, v :: _ =>
-        (match Divisor.periodic a.column a.first a.stride v with
-         | .ok x => some x
-         | .panic _ => none)
-      | .sequence, vs =>
-        (match Divisor.sequence a.column a.first a.stride vs with
-         | .ok x => some x
-         | .panic _ => none)
-      | _, [] => none
+        | none => E.zero)
+
+/-- the environment in which `aux_assertions` evaluates an asserted value: no cells, the random elements, the
+    public inputs (a missing one reads as zero), the index of the value within a sequence -/
+def valueEnv (E : EOps) (pubs : List Nat) (rands : List El) (seq : Nat) : Composition.Env El :=
+  ⟨fun _ => E.zero, fun _ => E.zero, fun _ => E.zero, fun _ => E.zero, fun _ => E.zero,
+   fun i => match rands[i]? with | some r => r | none => E.zero,
+   fun i => match pubs[i]? with | some v => embedInt E v | none => E.zero, seq⟩
+
+/-- `GenericAir::get_aux_assertions(aux_rand_elements)` (`genair::aux_assertions`); `none` = a panic: a value
+    expression that reads a cell (all cell slices are empty there) or a random element that was not drawn, or an
+    asserting constructor -/
+def mkAuxAssertions (E : EOps) (d : Desc) (pubs : List Nat) (rands : List El) : Option (List (Divisor.Assertion El)) :=
+  d.auxAsserts.mapM fun av =>
+    if !exprInRangeX 0 0 0 rands.length av.2 then none
+    else toLibAssertion av.1 ((List.range (av.1.numValues d.air.n)).map fun j => av.2.eval E.div (valueEnv E pubs rands j))
 
 /-- the instance `AIR::new(proof.trace_info(), pub_inputs, proof.options())` as `evaluate_constraints` sees it:
     trace shape from the proof's context, everything else from the description -/
-def compAir (E : EOps) (d : Desc) (asserts : List (Divisor.Assertion El)) (ti : Serde.TraceInfo) : Composition.Air El where
+def compAir (E : EOps) (d : Desc) (asserts auxAsserts : List (Divisor.Assertion El)) (ti : Serde.TraceInfo) :
+    Composition.Air El where
   n := ti.length
   e := d.air.exemptions
   mainWidth := ti.main
-  auxWidth := 0
+  auxWidth := ti.aux
   periodic := d.air.periodic.map fun col => col.map (embedInt E)
   mainCons := d.air.constraints.map convExpr
-  auxCons := []
+  auxCons := d.auxCons
   mainDegs := d.degs.map fun g => ⟨g.base, g.cycles⟩
-  auxDegs := []
+  auxDegs := d.auxDegs.map fun g => ⟨g.base, g.cycles⟩
   mainAsserts := asserts
-  auxAsserts := []
+  auxAsserts := auxAsserts
 
 /-- what `evaluate_constraints` computes before it touches the frame, or `none` where the real code panics:
     the assertions of `get_periodic_column_polys` (cycle length `>= 2`, a power of two, at most the trace
-    length), an out-of-range cell index in a constraint (`Expr::eval`), the asserting constructors and
-    `prepare_assertions` of `BoundaryConstraints::new` -/
-def prepOf (E : EOps) (d : Desc) (pubs : List Nat) (ti : Serde.TraceInfo) :
+    length), an out-of-range index in a main or auxiliary constraint (`Expr::eval`), the value expressions of the
+    auxiliary assertions, the asserting constructors and `prepare_assertions` of `BoundaryConstraints::new`
+    (for both segments).  `rands` are the auxiliary random elements the verifier has drawn (`[]` for a
+    single-segment trace). -/
+def prepOf (E : EOps) (d : Desc) (pubs : List Nat) (ti : Serde.TraceInfo) (rands : List El) :
     Option (Composition.Air El × Composition.Prep El) :=
   if !d.air.periodic.all (fun p => decide (2 ≤ p.length) && Divisor.isPow2 p.length && decide (p.length ≤ ti.length)) then none
   else if !d.air.constraints.all (exprInRange ti.main d.air.periodic.length) then none
+  else if !d.auxCons.all (exprInRangeX ti.main d.air.periodic.length ti.aux rands.length) then none
   else
-    match mkAssertions E d pubs with
-    | none => none
-    | some asserts =>
-      let air := compAir E d asserts ti
+    match mkAssertions E d pubs, mkAuxAssertions E d pubs rands with
+    | some asserts, some auxAsserts =>
+      let air := compAir E d asserts auxAsserts ti
       match Composition.prep E.div air with
       | none => none
       | some P => some (air, P)
+    | _, _ => none
 
 /-- `slice[i]` of a frame row (indices are validated by `prepOf`) -/
 def cell (E : EOps) (row : List El) (i : Nat) : El :=
@@ -315,17 +530,22 @@ def cell (E : EOps) (row : List El) (i : Nat) : El :=
   | some v => v
   | none => E.zero
 
-/-- `evaluate_constraints(air, coefficients, OOD main frame, z)`; the OOD trace frame arrives in hashing order
-    (current and next value of every column interleaved) -/
-def evalConstraints (E : EOps) (d : Desc) (pubs : List Nat) (ti : Serde.TraceInfo) (coeffs oodTrace : List El) (z : El) : El :=
-  match prepOf E d pubs ti with
+/-- the OOD evaluation frames of the two segments: the OOD trace frame arrives in hashing order (current and next
+    value of every column interleaved, main columns first) -/
+def oodFrames (E : EOps) (mainWidth : Nat) (oodTrace : List El) : Composition.Frames El :=
+  let cn := Serde.deinterleave oodTrace
+  ⟨cell E (cn.1.take mainWidth), cell E (cn.2.take mainWidth), cell E (cn.1.drop mainWidth), cell E (cn.2.drop mainWidth)⟩
+
+/-- `evaluate_constraints(air, coefficients, OOD main frame, OOD aux frame, aux rands, z)` -/
+def evalConstraints (E : EOps) (d : Desc) (pubs : List Nat) (ti : Serde.TraceInfo) (rands coeffs oodTrace : List El)
+    (z : El) : El :=
+  match prepOf E d pubs ti rands with
   | none => E.zero
   | some (air, P) =>
-    let cn := Serde.deinterleave oodTrace
-    let fr : Composition.Frames El := ⟨cell E cn.1, cell E cn.2, fun _ => E.zero, fun _ => E.zero⟩
-    let nT := d.air.constraints.length
-    let nA := d.air.assertions.length
-    match Composition.evaluateConstraints E.div air P fr (fun _ => E.zero) (coeffs.take nT) ((coeffs.drop nT).take nA) z with
+    let nT := d.air.constraints.length + d.auxCons.length
+    let nA := d.air.assertions.length + d.auxAsserts.length
+    match Composition.evaluateConstraints E.div air P (oodFrames E ti.main oodTrace) (cell E rands)
+        (coeffs.take nT) ((coeffs.drop nT).take nA) z with
     | some v => v
     | none => E.zero
 
@@ -343,45 +563,56 @@ def embedCell (E : EOps) (v : El) : El :=
 
 /-- `DeepComposer::new`: the x coordinates `g_lde^p · domain_offset` of the query positions -/
 def xCoordinates (E : EOps) (lde : Nat) (positions : List Nat) : List El :=
-  match rootRaw (Nat.log2 lde) with
+  match rootRaw E.I (Nat.log2 lde) with
   | none => []
-  | some g => positions.map fun p => E.ofBase (I.mul (I.exp g p) (I.new I.generator))
+  | some g => positions.map fun p => E.ofBase (E.I.mul (E.I.exp g p) (E.I.new E.I.generator))
 
 /-- `Σ_i (value_i − ood_i) · cc_i` -/
 def linComb (E : EOps) (vals oods ccs : List El) : El :=
   ((vals.zip oods).zip ccs).foldl (fun acc t => E.add acc (E.mul (E.sub t.1.1 t.1.2) t.2)) E.zero
 
-/-- `compose_trace_columns` for a trace without auxiliary segment: per query
-    `(t1_num · t2_den + t2_num · t1_den) / (t1_den · t2_den)` (batch inversion = inversion entry by entry, zero
-    mapped to zero) -/
-def composeTrace (E : EOps) (xs : List El) (z0 z1 : El) (ccTrace : List El) (rows : List (List El))
-    (oodCur oodNxt : List El) : List El :=
-  (rows.zip xs).map fun rx =>
-    let vals := rx.1.map (embedCell E)
-    let t1num := linComb E vals oodCur ccTrace
-    let t2num := linComb E vals oodNxt ccTrace
-    let t1den := E.sub rx.2 z0
-    let t2den := E.sub rx.2 z1
-    E.mul (E.add (E.mul t1num t2den) (E.mul t2num t1den)) (E.inv (E.mul t1den t2den))
+/-- the numerator `t1_num · t2_den + t2_num · t1_den` one segment contributes to a query -/
+def segmentNum (E : EOps) (x z0 z1 : El) (vals oodCur oodNxt ccs : List El) : El :=
+  let t1num := linComb E vals oodCur ccs
+  let t2num := linComb E vals oodNxt ccs
+  E.add (E.mul t1num (E.sub x z1)) (E.mul t2num (E.sub x z0))
+
+/-- `compose_trace_columns`: per query the numerator of the main segment, plus (for a multi-segment trace) the
+    numerator of the auxiliary segment with the coefficients and OOD values that follow the main ones, over the
+    common denominator `(x − z)(x − z·g)` (batch inversion = inversion entry by entry, zero mapped to zero) -/
+def composeTrace (E : EOps) (xs : List El) (z0 z1 : El) (mainWidth : Nat) (ccTrace : List El)
+    (mainRows : List (List El)) (auxRows : Option (List (List El))) (oodCur oodNxt : List El) : List El :=
+  let auxNums : List El := match auxRows with
+    | none => []
+    | some rows => (rows.zip xs).map fun rx =>
+        segmentNum E rx.2 z0 z1 rx.1 (oodCur.drop mainWidth) (oodNxt.drop mainWidth) (ccTrace.drop mainWidth)
+  ((mainRows.zip xs).zipIdx).map fun rxj =>
+    let x := rxj.1.2
+    let num := segmentNum E x z0 z1 (rxj.1.1.map (embedCell E)) oodCur oodNxt ccTrace
+    let num := match auxNums[rxj.2]? with
+      | some a => E.add num a
+      | none => num
+    E.mul num (E.inv (E.mul (E.sub x z0) (E.sub x z1)))
 
 /-- `compose_constraint_evaluations`: per query `Σ_i (H_i(x) − H_i(z)) · cc_i / (x − z)` -/
 def composeConstraints (E : EOps) (xs : List El) (z0 : El) (ccCons : List El) (rows : List (List El))
     (oodEvals : List El) : List El :=
   (rows.zip xs).map fun rx => E.mul (linComb E rx.1 oodEvals ccCons) (E.inv (E.sub rx.2 z0))
 
-/-- `DeepComposer::new`, `compose_trace_columns`, `compose_constraint_evaluations`, `combine_compositions` -/
-def deepCompose (E : EOps) (n lde width : Nat) (positions : List Nat) (z : El) (deep : List El)
+/-- `DeepComposer::new`, `compose_trace_columns`, `compose_constraint_evaluations`, `combine_compositions`;
+    `width` = main + auxiliary width (the number of trace coefficients) -/
+def deepCompose (E : EOps) (n lde mainWidth width : Nat) (positions : List Nat) (z : El) (deep : List El)
     (traceRows : List (List (List El))) (constraintRows : List (List El)) (oodTrace oodEvals : List El) : List El :=
   let xs := xCoordinates E lde positions
-  let gTrace := match rootRaw (Nat.log2 n) with
+  let gTrace := match rootRaw E.I (Nat.log2 n) with
     | some g => g
-    | none => I.new 0
+    | none => E.I.new 0
   let z1 := E.mul z (E.ofBase gTrace)
   let cn := Serde.deinterleave oodTrace
   let mainRows := match traceRows with
     | r :: _ => r
     | [] => []
-  let t := composeTrace E xs z z1 (deep.take width) mainRows (cn.1.take width) (cn.2.take width)
+  let t := composeTrace E xs z z1 mainWidth (deep.take width) mainRows traceRows[1]? (cn.1.take width) (cn.2.take width)
   let c := composeConstraints E xs z (deep.drop width) constraintRows oodEvals
   List.zipWith E.add t c
 
@@ -393,33 +624,31 @@ inductive Acceptable where
   | optionSet (opts : List Serde.ProofOptions)
   deriving Repr
 
-/-- what the byte-level front end needs to know about the instantiation -/
-def frontAir (d : Desc) : Parse.Air where
-  F := I
-  cubic := true
-  digestBytes := 32
-  digestSize := 32
+/-- what the byte-level front end needs to know about the instantiation and the computation -/
+def frontAir (J : Inst) (d : Desc) : Parse.Air where
+  F := J.I
+  cubic := J.cubic
+  digestBytes := J.digestBytes
+  digestSize := J.digestSize
   exemptions := d.air.exemptions
   mainDegs := d.degs
-  auxDegs := []
+  auxDegs := d.auxDegs
   nMainAssert := d.air.assertions.length
-  nAuxAssert := 0
-  descAuxWidth := 0
+  nAuxAssert := d.auxAsserts.length
+  descAuxWidth := d.auxWidth
   lagrange := false
 
-/-- `H::COLLISION_RESISTANCE` of Rp64_256 -/
-def COLLISION_RESISTANCE : Nat := 128
-
 /-- `proof.security_level::<H>(true)`; `none` = an arithmetic panic -/
-def securityLevel (d : Desc) (ctx : Serde.Context) : Option Nat :=
-  (Parse.conjecturedSecurity ctx.options (frontAir d).fieldBits ctx.traceInfo.length).map fun s => min s COLLISION_RESISTANCE
+def securityLevel (J : Inst) (d : Desc) (ctx : Serde.Context) : Option Nat :=
+  (Parse.conjecturedSecurity ctx.options (frontAir J d).fieldBits ctx.traceInfo.length).map fun s =>
+    min s J.collisionResistance
 
 /-- `acceptable_options.validate::<H>(&proof)` succeeds (a panicking security estimate counts as refused here;
     `refVerify` reports it as a panic before it gets here) -/
-def policyOk (d : Desc) (acc : Acceptable) (ctx : Serde.Context) : Bool :=
+def policyOk (J : Inst) (d : Desc) (acc : Acceptable) (ctx : Serde.Context) : Bool :=
   match acc with
   | .minConjectured m =>
-    (match securityLevel d ctx with
+    (match securityLevel J d ctx with
      | some s => decide (m ≤ s)
      | none => false)
   | .optionSet l => l.contains ctx.options
@@ -432,8 +661,8 @@ def friOpts (o : Serde.ProofOptions) : Fri.Opts :=
 
 /-- number of columns of the constraint composition polynomial of the instance (`0` when the AIR constructor
     panics: `refVerify` never gets that far) -/
-def numCols (d : Desc) (ctx : Serde.Context) : Nat :=
-  match Parse.airNew (frontAir d) ctx.traceInfo ctx.options with
+def numCols (J : Inst) (d : Desc) (ctx : Serde.Context) : Nat :=
+  match Parse.airNew (frontAir J d) ctx.traceInfo ctx.options with
   | some k => k
   | none => 0
 
@@ -450,8 +679,9 @@ def evalRemainder (E : EOps) (rem : List El) (dom pos : Nat) : El :=
   let F := E.fri
   Fri.horner F rem (F.mul F.offset (Fri.pow F (F.root (Nat.log2 dom)) pos))
 
-/-- the AIR instance of a proof context -/
-def airInst (E : EOps) (d : Desc) (pubs : List Nat) (ctx : Serde.Context) :
+/-- the AIR instance of a proof context: the number of auxiliary random elements, the widths and the trace length
+    come from the PROOF's trace info, the numbers of constraints and assertions from the description -/
+def airInst (J : Inst) (E : EOps) (d : Desc) (pubs : List Nat) (ctx : Serde.Context) :
     VerifierChecks.AirInst (Coin.Coin Dg) Dg El :=
   let ti := ctx.traceInfo
   let o := ctx.options
@@ -459,73 +689,88 @@ def airInst (E : EOps) (d : Desc) (pubs : List Nat) (ctx : Serde.Context) :
   { extSupported := true
     multiSegment := decide (ti.aux > 0)
     lagrange := false
-    numAuxRands := 0
-    numCoeffs := d.air.constraints.length + d.air.assertions.length
-    numDeepCoeffs := ti.main + ti.aux + numCols d ctx
+    numAuxRands := ti.rands
+    numCoeffs := d.air.constraints.length + d.auxCons.length + (d.air.assertions.length + d.auxAsserts.length)
+    numDeepCoeffs := ti.main + ti.aux + numCols J d ctx
     ldeSize := lde
     numQueries := o.numQueries
     grinding := o.grinding
     fri := friOpts o
     tracePolyDegree := ti.length - 1
     gkrVerify := fun _ _ => none
-    evalConstraints := fun coeffs _ _ oodTrace z => evalConstraints E d pubs ti coeffs oodTrace z
+    evalConstraints := fun coeffs auxRands _ oodTrace z => evalConstraints E d pubs ti auxRands coeffs oodTrace z
     combineOod := combineOod E ti.length
-    deepCompose := deepCompose E ti.length lde (ti.main + ti.aux)
+    deepCompose := deepCompose E ti.length lde ti.main (ti.main + ti.aux)
     foldRow := fun _ dom pos row alpha => foldRow E lde o.folding dom pos row alpha
     evalRemainder := evalRemainder E }
 
-/-- **the concrete verifier**: `VerifierChecks.Verifier` for the 64-bit field, Rp64_256, the default coin, the
-    computation `d` with public inputs `pubs`, the acceptance policy `acc` and elements `E` -/
-def mkVerifier (E : EOps) (d : Desc) (pubs : List Nat) (acc : Acceptable) :
+/-- **the concrete verifier**: `VerifierChecks.Verifier` for the instantiation `J`, the computation `d` with public
+    inputs `pubs`, the acceptance policy `acc` and elements `E` -/
+def mkVerifier (J : Inst) (E : EOps) (d : Desc) (pubs : List Nat) (acc : Acceptable) :
     VerifierChecks.Verifier (Coin.Coin Dg) Dg El where
-  coin := coinOps E
-  merkle := merkleH
-  hashElems := hashEls
-  modulus := (frontAir d).modulusBytes
-  elemBytes := I.bytes
-  pubElems := pubs.map (· % I.M)
+  coin := coinOps J E
+  merkle := merkleH J
+  hashElems := hashEls J
+  modulus := (frontAir J d).modulusBytes
+  elemBytes := J.I.bytes
+  pubElems := pubs.map (· % J.I.M)
   acceptable := fun ctx =>
-    policyOk d acc ctx && decide (ctx.options.numQueries < ctx.traceInfo.length * ctx.options.blowup)
-  air := airInst E d pubs
+    policyOk J d acc ctx && decide (ctx.options.numQueries < ctx.traceInfo.length * ctx.options.blowup)
+  air := airInst J E d pubs
   commitCheck := true
 
 /-! ## 6. From the parsed byte blocks to the verifier's inputs -/
 
 /-- parameters of `VerifierChannel::new` for a context whose AIR asks for `ncols` composition columns -/
-def chanCfg (ctx : Serde.Context) (ncols : Nat) : VerifierChecks.ChanCfg :=
+def chanCfg (J : Inst) (ctx : Serde.Context) (ncols : Nat) : VerifierChecks.ChanCfg :=
   let ti := ctx.traceInfo
   let o := ctx.options
   let lde := ti.length * o.blowup
-  { F := I, ext := o.fieldExt, digest := Serde.elemDigest64, numSegments := ti.numSegments,
+  { F := J.I, ext := o.fieldExt, digest := J.digest, numSegments := ti.numSegments,
     mainWidth := ti.main, auxWidth := ti.aux, constraintWidth := ncols,
     ldeLog := Nat.log2 lde,
     numFriLayers := (Protocol.friLayers lde ((o.remDeg + 1) * o.blowup) o.folding).1,
     folding := o.folding, lagrangeLog := none }
 
 /-- canonical coordinates (as the readers deliver them) to raw words -/
-def rawEl (cs : List Nat) : El := cs.map I.new
-def rawDg (cs : List Nat) : Dg := cs.map I.new
+def rawEl (J : Inst) (cs : List Nat) : El := cs.map J.I.new
+def rawDg (J : Inst) (cs : List Nat) : Dg := cs.map J.I.new
 
-def rawOpening (o : VerifierChecks.ParsedOpening) : VerifierChecks.Opening El Dg :=
-  ⟨o.rows.map (·.map rawEl), o.nodes.map (·.map rawDg)⟩
+def rawOpening (J : Inst) (o : VerifierChecks.ParsedOpening) : VerifierChecks.Opening El Dg :=
+  ⟨o.rows.map (·.map (rawEl J)), o.nodes.map (·.map (rawDg J))⟩
 
 /-- what `perform_verification` reads before the query positions are drawn -/
-def committedOf (c : VerifierChecks.ParsedChannel) : VerifierChecks.Committed El Dg where
-  traceRoots := c.traceRoots.map rawDg
-  constraintRoot := rawDg c.constraintRoot
-  oodTrace := Serde.interleave (c.oodCurrent.map rawEl) (c.oodNext.map rawEl)
-  oodEvals := c.oodEvals.map rawEl
-  friRoots := c.friRoots.map rawDg
+def committedOf (J : Inst) (c : VerifierChecks.ParsedChannel) : VerifierChecks.Committed El Dg where
+  traceRoots := c.traceRoots.map (rawDg J)
+  constraintRoot := rawDg J c.constraintRoot
+  oodTrace := Serde.interleave (c.oodCurrent.map (rawEl J)) (c.oodNext.map (rawEl J))
+  oodEvals := c.oodEvals.map (rawEl J)
+  friRoots := c.friRoots.map (rawDg J)
   powNonce := c.powNonce
   gkr := c.gkr
 
 /-- what it reads afterwards -/
-def openedOf (c : VerifierChecks.ParsedChannel) : VerifierChecks.Opened El Dg where
-  traceOpenings := c.traceOpenings.map rawOpening
-  constraintOpening := rawOpening c.constraintOpening
-  friLayers := c.friLayers.map rawOpening
-  remainder := c.remainder.map rawEl
+def openedOf (J : Inst) (c : VerifierChecks.ParsedChannel) : VerifierChecks.Opened El Dg where
+  traceOpenings := c.traceOpenings.map (rawOpening J)
+  constraintOpening := rawOpening J c.constraintOpening
+  friLayers := c.friLayers.map (rawOpening J)
+  remainder := c.remainder.map (rawEl J)
   numPartitions := c.numPartitions
+
+/-- the auxiliary random elements `perform_verification` draws for a multi-segment trace: the coin seeded with
+    context and public inputs, reseeded with the main trace commitment, `trace_info.num_aux_segment_rands` draws
+    (`[]` for a single-segment trace; `none` = a draw fails: the `expect` of lib.rs panics, reported by the
+    decision function itself) -/
+def auxRandsOf (J : Inst) (E : EOps) (d : Desc) (pubs : List Nat) (acc : Acceptable) (ctx : Serde.Context)
+    (c : VerifierChecks.ParsedChannel) : Option (List El) :=
+  if ctx.traceInfo.aux = 0 then some []
+  else
+    let W := mkVerifier J E d pubs acc
+    match (committedOf J c).traceRoots with
+    | [] => none
+    | r0 :: _ =>
+      (VerifierChecks.drawMany W.coin ctx.traceInfo.rands
+        (W.coin.reseed (W.coin.new (VerifierChecks.coinSeed W.elemBytes ctx W.pubElems)) r0)).map (·.1)
 
 /-! ## 7. The reference verifier -/
 
@@ -545,26 +790,34 @@ def Verdict.ofExcept : Except VerifierChecks.VErr Unit → Verdict
   | .error e => .err e
 
 /-- `acceptable_options.validate`, as a verdict: `none` = accepted -/
-def policyVerdict (d : Desc) (acc : Acceptable) (ctx : Serde.Context) : Option Verdict :=
+def policyVerdict (J : Inst) (d : Desc) (acc : Acceptable) (ctx : Serde.Context) : Option Verdict :=
   match acc with
   | .minConjectured m =>
-    (match securityLevel d ctx with
+    (match securityLevel J d ctx with
      | none => some (.err (.panic "security_level"))
      | some s => if s < m then some .insufficientSecurity else none)
   | .optionSet l => if l.contains ctx.options then none else some (.err .unacceptableOptions)
 
-/-- `verify::<GenericAir, Rp64_256, DefaultRandomCoin<Rp64_256>>(proof, pub_inputs, acceptable)` on a parsed
-    proof, step by step:
+/-- the computation fits the trace shape of the proof: `evaluate_constraints` gets past the AIR's callbacks and
+    `BoundaryConstraints::new` with the auxiliary random elements the verifier draws (when these cannot be drawn
+    the decision function reports the panic of `get_aux_rand_elements`) -/
+def shapeOk (J : Inst) (E : EOps) (d : Desc) (pubs : List Nat) (acc : Acceptable) (ctx : Serde.Context)
+    (c : VerifierChecks.ParsedChannel) : Bool :=
+  match auxRandsOf J E d pubs acc ctx c with
+  | none => true
+  | some rands => (prepOf E d pubs ctx.traceInfo rands).isSome
+
+/-- `verify::<GenericAir, H, DefaultRandomCoin<H>>(proof, pub_inputs, acceptable)` on a parsed proof, step by step:
     base-field check, acceptance policy, query-count check, AIR constructor, extension support and
     `VerifierChannel::new` (outcome: `Parse.verifyFront`; parsed values: `VerifierChecks.channelParse`), the
     part of `evaluate_constraints` that can panic on a trace shape the description does not fit, then
     `perform_verification` = `VerifierChecks.verify` at `mkVerifier` -/
-def refVerifyProof (d : Desc) (pubs : List Nat) (acc : Acceptable) (p : Serde.Proof) : Verdict :=
+def refVerifyProof (J : Inst) (d : Desc) (pubs : List Nat) (acc : Acceptable) (p : Serde.Proof) : Verdict :=
   let ctx := p.context
-  let A := frontAir d
+  let A := frontAir J d
   if ctx.modulus ≠ A.modulusBytes then .err .inconsistentBaseField
   else
-    match policyVerdict d acc ctx with
+    match policyVerdict J d acc ctx with
     | some v => v
     | none =>
       match (Parse.verifyFront A p).1 with
@@ -575,25 +828,25 @@ def refVerifyProof (d : Desc) (pubs : List Nat) (acc : Acceptable) (p : Serde.Pr
       | .err => .err .deserialization
       | .panic => .err (.panic "verify front end")
       | .pass =>
-        match Parse.airNew A ctx.traceInfo ctx.options, extOps ctx.options.fieldExt with
+        match Parse.airNew A ctx.traceInfo ctx.options, extOps J ctx.options.fieldExt with
         | some ncols, some E =>
-          match VerifierChecks.channelParse (chanCfg ctx ncols) p with
+          match VerifierChecks.channelParse (chanCfg J ctx ncols) p with
           | .panic => .err (.panic "VerifierChannel::new")
           | .err _ => .err .deserialization
           | .ok c =>
-            if (prepOf E d pubs ctx.traceInfo).isNone then .err (.panic "evaluate_constraints")
-            else Verdict.ofExcept (VerifierChecks.verify (mkVerifier E d pubs acc) ctx (some (committedOf c, openedOf c)))
+            if !shapeOk J E d pubs acc ctx c then .err (.panic "evaluate_constraints")
+            else Verdict.ofExcept (VerifierChecks.verify (mkVerifier J E d pubs acc) ctx (some (committedOf J c, openedOf J c)))
         | _, _ => .err (.panic "AIR::new")
 
 /-- **the reference verifier**: `Proof::from_bytes(bytes)` then `verify` -/
-def refVerify (d : Desc) (pubs : List Nat) (acc : Acceptable) (bytes : List Nat) : Verdict :=
+def refVerify (J : Inst) (d : Desc) (pubs : List Nat) (acc : Acceptable) (bytes : List Nat) : Verdict :=
   match (Parse.parseProof bytes).1 with
-  | .ok p => refVerifyProof d pubs acc p
+  | .ok p => refVerifyProof J d pubs acc p
   | .err => .parseErr
   | .eof => .parseErr
   | .panic => .err (.panic "Proof::from_bytes")
 
-/-! ## 8. Canonical text of a verdict (the `refv` op of the C03 driver) -/
+/-! ## 8. Canonical text of a verdict (the `refv` op of the C03 / C06 drivers) -/
 
 def friErr (s : String) : String := "err:FriVerificationFailed." ++ s
 
@@ -621,5 +874,12 @@ def Verdict.text : Verdict → String
     | .remainderDegreeMismatch => friErr "RemainderDegreeMismatch"
     | .invalidRemainderFolding => friErr "InvalidRemainderFolding"
     | .panic _ => "panic"
+
+/-- the instantiation of a `<field> <hasher>` pair of an op line -/
+def instOf (field hasher : String) : Option Inst :=
+  if field = "f64" ∧ hasher = "rp64_256" then some Inst.rp64
+  else if field = "f64" ∧ hasher = "rpjive64_256" then some Inst.rpjive
+  else if field = "f62" ∧ hasher = "rp62_248" then some Inst.rp62
+  else none
 
 end Model.RefVerifier
